@@ -39,6 +39,8 @@ M = {
   ("header-read-not-full", "internal/server/dispatcher.go", "i, err := io.ReadFull(conn, buf[bufOffset:recordLayerLength])", "i, err := conn.Read(buf[bufOffset:recordLayerLength])"),
   ("server-banner-on-reject", "internal/server/dispatcher.go",
    "\t\t}).Warn(err)\n\t\tgoWeb()\n", "\t\t}).Warn(err)\n\t\tconn.Write([]byte(\"HTTP/1.1 400 Bad Request\\r\\n\\r\\n\"))\n\t\tgoWeb()\n"),
+  ("copy-to-peer-missing", "internal/server/dispatcher.go", "\t\tgo common.Copy(conn, webConn)\n", "\t\tgo func() { buf := make([]byte, 1); webConn.Read(buf) }()\n"),
+  ("prefix-written-twice", "internal/server/dispatcher.go", "\t\t_, err = webConn.Write(data)\n", "\t\twebConn.Write(data)\n\t\t_, err = webConn.Write(data)\n"),
   ("line-terminator-lf-only", "internal/server/dispatcher.go", "if bytes.Equal(line, []byte(\"\\r\\n\")) {", "if bytes.Equal(line, []byte(\"\\n\")) {"),
   ("equivalent-rewrite(must pass)", "internal/server/dispatcher.go", "if dataLength+recordLayerLength > len(buf) {", "if len(buf) < recordLayerLength+dataLength {"),
  ],
